@@ -1,12 +1,19 @@
 #!/bin/sh
-# sweep.sh <tier> <seed>...: run every registered check for the given seeds, one line per run
+# sweep.sh <tier> <seed>...: run every registered check for the given seeds, one line per run.
+# The sweep works on its own scratch worktree of /repo's HEAD (BT_VERIF_REPO), so that
+# seeded changes tried in /repo at the same time do not leak into it.
 T="$1"; shift
 cd "$(dirname "$0")/.."
+W=/tmp/sweep-repo-$$
+git -C /repo worktree add -q --detach $W HEAD || exit 2
+export BT_VERIF_REPO=$W
 for s in "$@"; do
   for p in C01 C02 C03 C04 C05 C06 C07 C08 C09 C10 C11 C12 C13 C14 C15 C16 C17 C18 C19 C20; do
     st=$(date +%s)
     VERIF_SEED=$s ./check $p --tier $T > /tmp/sweep_${p}_$s.txt 2>&1; rc=$?
     echo "seed=$s $p rc=$rc $(( $(date +%s) - st ))s viol=$(grep -c '^VIOLATION' /tmp/sweep_${p}_$s.txt) known=$(grep -c '^KNOWN-FINDING' /tmp/sweep_${p}_$s.txt) $(grep -A1 '^VIOLATION' /tmp/sweep_${p}_$s.txt | grep -v '^VIOLATION' | head -2 | tr '\n' '|')"
     if [ $rc -ne 0 ]; then mkdir -p sweep_fail; cp /tmp/sweep_${p}_$s.txt sweep_fail/${p}_$s.txt; cp evidence/replay/${p}_1.json sweep_fail/${p}_${s}_replay.json 2>/dev/null; fi
+    rm -f /tmp/sweep_${p}_$s.txt
   done
 done
+git -C /repo worktree remove --force $W
